@@ -144,8 +144,14 @@ class SimpleOperationExecutor:
             raise FileNotFoundError(
                 'The requested file does not exist: {:s}'.format(filename))
         except IsADirectoryError:
-            raise IsADirectoryError(
-                'Cannot read a directory: {:s}'.format(filename))
+            # The directory might have been removed in the virtual state of
+            # the file system
+            if self.is_dir(filename, created_files):
+                raise IsADirectoryError(
+                    'Cannot read a directory: {:s}'.format(filename))
+            else:
+                raise FileNotFoundError(
+                    'The requested file does not exist: {:s}'.format(filename))
 
         # The file must exist, since we didn't raise a FileNotFoundError or an
         # IsADirectoryError
